@@ -433,6 +433,7 @@ func gen(tier string, seed int64) []mon.Case {
 	add := func(id string, d interface{}) { cs = append(cs, mon.MkCase(id, d)) }
 	names := tableNames()
 	add("c17/assets", Static{Kind: "assets"})
+	add(cwdCaseID, Static{Kind: "cwd-shadow"})
 	for _, n := range names {
 		add("c17/static/"+n, Static{Kind: "static", Platform: n})
 		add("c17/options/"+n, Static{Kind: "options", Platform: n})
@@ -592,6 +593,8 @@ func run(c mon.Case) mon.Result {
 	switch s.Kind {
 	case "assets":
 		return runAssets()
+	case "cwd-shadow":
+		return runCwdShadow()
 	case "static":
 		return runStatic(s.Platform)
 	case "options":
@@ -627,6 +630,8 @@ func init() {
 			"the relation (level A's canonical prompt, other level B accepting it) of every shipped definition is pinned (= Appendix A 'also accepted by' plus the pairs inside classes of identical prompts); any change is reported. The overlaps themselves are a limitation of the definitions, not judged: a fresh session (empty cached level) opened on a device already in such a level takes it for the default desired level (observed and recorded per pinned overlap, see fresh_session_on_overlapping_level_witnesses)",
 			"load-order sequences (base-variant-base, variant-base, base-base on two hosts, variant-variant, variant-base-variant-base; by name for shipped variants, from bytes for generated ones) judge observable differences only: every result is re-compared with the independent reading after each later load, must keep its own host/transport/driver, and altering one result (levels, failure strings, steps, options, driver fields) must leave the others and fresh loads equal to the definition; a library-internal cache as such is not judged",
 			"prompt family (family.go, derived once from the unchanged shipped definitions): per platform 4-7 host-name spellings (letters, digits and each punctuation character of the host class that all levels of the platform admit) and 1-5 alternative spellings per level (config sub modes, changed-config marks, context lines); every member must be accepted by its own level and the joined pattern and by no other level than the pinned overlap relation lists (static, all members x all hosts), and one full session is driven per further host name and per alternative spelling per round",
+			"every session also asks, from known levels, for levels without escalate command that share their prompt with a reachable level (cumulus_linux/root_login: the empty command means 'same place'), and runs SendConfig and SendCommand twice in turn; judged by absence of errors, the driver's CurrentPriv and the device mode's class",
+			"working-directory case (own worker process): cwd holding a directory / a foreign YAML file / a foreign <name>.yaml per advertised name must not change what any advertised name (and the shipped variant) loads; a name that is not embedded must still load from the file system",
 			"customised-levels sessions: the definition's own level objects get an alternative appended to their patterns in place (the canonical prompt with the hostname replaced by one of 4 hostile-but-legal names), refreshed by UpdatePrivileges() on the same driver or handed to a second driver through options.WithPrivilegeLevels after a first driver used the same map; judged by the ordinary oracle (joined pattern and per-level patterns consistent, on-open/on-close seen, all pairs reached)",
 			"two-drivers sessions: every option list is append(p.AsOptions(), user options) on ONE *Platform and all lists exist before any driver is built (1 or 3 user options per list; getter calls interleaved); each driver must carry its own transport / default level / failure strings / port and drive its own device; that AsOptions reflects later edits of the Platform's fields is not judged (not stated by the property)",
 			"generated variants define only non-empty sections; a section that is present but empty is outside the checked merge semantics",
@@ -638,6 +643,7 @@ func init() {
 		Workers:     func(string) int { return 8 },
 		Parallel:    func(string) int { return 4 },
 		CaseTimeout: 300 * time.Second,
+		Solo:        func(c mon.Case) bool { return c.ID == cwdCaseID },
 		// the witnesses of the overlap observations go into the evidence (round 0 only)
 		Post: func(_ string, agg *mon.Agg) {
 			w := map[string]interface{}{}
